@@ -28,6 +28,10 @@ CLAIMED['C08'] = dict(
     text="Every core PolicySet operation (new, add, add_static, add_template, link, unlink, remove_static, remove_template, policy_id_is_bound, get, get_template_arc, get_linked_policies, policies, is_empty) is extracted verbatim (hash-map Entry API included, through prophecy-style contracts) and proved by Verus to preserve a representation invariant over the three maps (no link without its template, exact reverse index, an id shared by a template and a link only for a static policy) with whole-view postconditions: exact success condition, exactly the stated change on success, nothing changed on failure; both panic! arms are proved unreachable. policies() yields exactly the links, with pairwise distinct ids (the precondition used by C01).",
     design_ref='§5 C08', technique='Verus data-structure invariant + whole-view function contracts on extracted code',
     note="Trusted: Verus/Z3; LinkedHashMap/LinkedHashSet/Entry model; Template::link / link_static_policy contracts (check_binding not verified); caller-established preconditions of add/link about non-static id collisions. Not covered: link == substitution at evaluation (Slot arm), merge_policyset, try_from_iter, the cedar_policy::PolicySet wrapper maps in api.rs.")
+CLAIMED['C20'] = dict(
+    text="Delimited by-product: for every function under contract in any unit (see coverage.functions_under_contract) Verus proves, for all inputs satisfying the stated precondition, that no index is out of bounds, no arithmetic overflows, no division by zero occurs and no unwrap/expect/unreachable!/panic! is reached (e.g. wildcard_match indexing, binary_relation/binary_arith unreachable!, remove_template/unlink panic!, tpe::Response unwraps, PolicySet::add unwrap in policy_set). A C20 violation is reported only when a function's failing obligations are exclusively of these kinds. Nothing is claimed for code outside the listed functions (parsers, JSON, protobuf, FFI, formatter, error rendering).",
+    design_ref='§5 C20', technique='implicit safety obligations of Verus on the extracted functions (callee preconditions, overflow, unreachable)',
+    note="Trusted: as for the units it aggregates. Termination is proved only where a decreases clause is present. The quantification of C20 over arbitrary bytes at every entry point is NOT covered: this check decides panic-freedom only for the functions under contract.")
 NOT_APPLICABLE = {
     'C03': 'strict-validation soundness relates two multi-thousand-line recursive functions over all programs x environments; no function contract within reach implies it (DESIGN §6)',
     'C04': 'in progress',
@@ -42,5 +46,4 @@ NOT_APPLICABLE = {
     'C17': 'soundness of a static analysis for all programs x stores; slicing functions alone do not state the property (DESIGN §6)',
     'C18': 'in progress',
     'C19': 'glue over serde, thread-locals and process exit codes relating whole front ends (DESIGN §6)',
-    'C20': 'in progress',
 }
